@@ -631,6 +631,13 @@ class History:
         l = SLoop(c, "", names[:-1])
         c.loops.append(l)
         self.lhs.append((l, h))
+        if self.r.random() < 0.5:
+            # a REJECTED packet for the still-empty scalar loop first (an item of no loop at the first / last position): the valid
+            # calls that follow must behave as if it had never been made (row counter included)
+            li = len(self.lhs) - 1
+            bad = [name_tok("_zz9", True)] + self.value()
+            good = [name_tok(names[0], True)] + self.value()
+            self.op("addpkt", li, 2, *((bad + good) if self.r.random() < 0.5 else (good + bad)))
         self.op("setval", h, name_tok(names[-1], True), *self.value())
         l.names[norm(names[-1])] = names[-1]
         l.npk = 1
@@ -696,6 +703,45 @@ class History:
         self.op("itclose" if r.random() < 0.6 else "itabort", it)
         self.its[it] = None
         del self.open_it[l.cont.cif]
+        return True
+
+    def g_emptied(self):
+        """a loop that HELD packets and lost all of them through an iterator (next, remove … close): afterwards it is a loop without
+        packets like one that never had any — cif_container_prune removes it, cif_loop_get_packets answers CIF_EMPTY_LOOP, a packet
+        added to it is its only packet (row counters must not leak out of the removals)"""
+        r = self.r
+        ls = [l for l in self.live_lhs() if 1 <= self.lhs[l][0].npk <= 4 and not self.in_tx(self.lhs[l][0].cont.cif)
+              and self.lhs[l][0].names and self.lhs[l][0].cat != ""]
+        if not ls or r.random() < 0.4:
+            return False
+        li = r.choice(ls)
+        l, h = self.lhs[li]
+        self.op("itopen", li)
+        it = len(self.its)
+        self.its.append({"loop": l, "lh": li})
+        self.open_it[l.cont.cif] = it
+        for _ in range(l.npk):
+            self.op("itnext", it)
+            self.op("itrem", it)
+        self.op("itnext", it)
+        self.op("itclose", it)
+        self.its[it] = None
+        del self.open_it[l.cont.cif]
+        l.npk = 0
+        what = r.choice(["prune", "prune", "addpkt", "itopen", "loops"])
+        if what == "prune":
+            self.op("prune", h)
+            for x in [x for x in l.cont.loops if x.npk == 0]:
+                x.alive = False
+                l.cont.loops.remove(x)
+            self.op("loops", h)
+        elif what == "addpkt":
+            self.full_packet(li, l)
+            self.full_packet(li, l)
+        elif what == "itopen":
+            self.op("itopen", li); self.its.append(None)
+        else:
+            self.op("loops", h)
         return True
 
     def ensure_loop_handle(self, h, loop):
@@ -1085,7 +1131,7 @@ class History:
 
     GOOD_KINDS = (["g_mkblock"] * 3 + ["g_mkblock_len", "g_mkframe_len"] + ["g_getblock"] * 2 + ["g_mkframe"] * 3 + ["g_getframe"] * 2 + ["g_mkloop"] * 6 + ["g_setval_new"] * 4
                   + ["g_setval_old"] * 3 + ["g_addpkt"] * 8 + ["g_additem"] * 2 + ["g_rmitem"] * 3 + ["g_query"] * 6 + ["g_setcat"]
-                  + ["g_prune", "g_ldestroy", "g_cdestroy", "g_cdestroy", "g_newcif", "g_delcif"] + ["g_iter"] * 3 + ["g_cross"] * 4 + ["g_session"] * 6 + ["g_scalar_nopkt"] + ["g_iter_sp"] * 4)
+                  + ["g_prune", "g_ldestroy", "g_cdestroy", "g_cdestroy", "g_newcif", "g_delcif"] + ["g_iter"] * 3 + ["g_cross"] * 4 + ["g_session"] * 6 + ["g_scalar_nopkt"] + ["g_iter_sp"] * 4 + ["g_emptied"] * 3)
     FAIL_KINDS = (["f_mkblock"] * 2 + ["f_mk_len"] + ["f_mkframe"] * 2 + ["f_lookup"] * 2 + ["f_mkloop"] * 6 + ["f_addpkt"] * 6 + ["f_item"] * 5
                   + ["f_setcat"] * 2 + ["f_stale_loop"] * 2 + ["f_iter_misuse"])
 
